@@ -69,6 +69,10 @@ type termTable struct {
 
 var tt = &termTable{m: map[string]*Term{}}
 
+// noWires disables the wiring normal form (wires.go); set by -nowires and by
+// the term self-test to obtain the reference construction.
+var noWires bool
+
 func maskW(w int) uint64 {
 	if w >= 64 {
 		return ^uint64(0)
@@ -385,6 +389,20 @@ func mkBin(op string, a, b *Term) *Term {
 			return mkBV(v, w)
 		}
 	}
+	if !noWires {
+		switch op {
+		case "bvand", "bvor", "bvxor":
+			if r, ok := wireBitop(op, a, b); ok {
+				return r
+			}
+		case "bvshl", "bvlshr", "bvashr":
+			if b.isConst() {
+				if r, ok := wireShift(op, a, b.cval); ok {
+					return r
+				}
+			}
+		}
+	}
 	// identities
 	switch op {
 	case "bvadd":
@@ -397,12 +415,28 @@ func mkBin(op string, a, b *Term) *Term {
 		if a.isConst() { // canonical: const on right
 			a, b = b, a
 		}
+		// a + (x - a) = x
+		if b.op == "bvsub" && b.args[1] == a {
+			return b.args[0]
+		}
+		if a.op == "bvsub" && a.args[1] == b {
+			return a.args[0]
+		}
 	case "bvsub":
 		if b.isConst() && b.cval == 0 {
 			return a
 		}
 		if a == b {
 			return mkBV(0, w)
+		}
+		// (x + b) - b = x
+		if a.op == "bvadd" {
+			if a.args[1] == b {
+				return a.args[0]
+			}
+			if a.args[0] == b {
+				return a.args[1]
+			}
 		}
 	case "bvmul":
 		if a.isConst() {
@@ -559,6 +593,9 @@ func mkExtract(hi, lo int, a *Term) *Term {
 	if a.isConst() {
 		return mkBV(a.cval>>uint(lo), w)
 	}
+	if !noWires {
+		return fromWires(wiresOf(a)[lo : hi+1])
+	}
 	if a.op == "zext" || a.op == "sext" {
 		inner := a.args[0]
 		if hi < inner.sort.w {
@@ -593,6 +630,13 @@ func mkZext(a *Term, w int) *Term {
 	if a.isConst() {
 		return mkBV(a.cval, w)
 	}
+	if !noWires {
+		ws := wiresOf(a)
+		for len(ws) < w {
+			ws = append(ws, wire{nil, 0})
+		}
+		return fromWires(ws)
+	}
 	if a.op == "zext" {
 		return mkZext(a.args[0], w)
 	}
@@ -612,6 +656,19 @@ func mkSext(a *Term, w int) *Term {
 	if a.op == "zext" { // zero-extended value is non-negative
 		return mkZext(a.args[0], w)
 	}
+	if !noWires {
+		top := uint(a.sort.w - 1)
+		if a.k0>>top&1 == 1 {
+			return mkZext(a, w)
+		}
+		if a.k1>>top&1 == 1 {
+			ws := wiresOf(a)
+			for len(ws) < w {
+				ws = append(ws, wire{nil, 1})
+			}
+			return fromWires(ws)
+		}
+	}
 	return tt.intern("sext", bvSort(w), 0, "", w-a.sort.w, 0, a)
 }
 
@@ -619,6 +676,9 @@ func mkConcat(hi, lo *Term) *Term {
 	w := hi.sort.w + lo.sort.w
 	if hi.isConst() && lo.isConst() {
 		return mkBV(hi.cval<<uint(lo.sort.w)|lo.cval, w)
+	}
+	if !noWires {
+		return fromWires(append(wiresOf(lo), wiresOf(hi)...))
 	}
 	if hi.isConst() && hi.cval == 0 {
 		return mkZext(lo, w)
